@@ -29,7 +29,8 @@ RULE = ("directive sequences over steps {define n v | use n} with names "
         "sequences of "
         "length 3..6 with random (also repeated) includes.  Non-trivial = "
         "contains a define; distinct_nontrivial = distinct (step kinds and "
-        "value classes, include depth, outcome) signatures.")
+        "value classes, include depth, outcome) signatures."
+        ' Also: the definitions table handed to the top parser as a UserDict / ChainMap / own mapping / OrderedDict; kept ExtendedConfigLoader objects (with and without an option); name positions that expand to nothing; path-like values.')
 LEVEL_TEXT = ("All directive histories within the bound are executed "
               "through loadConfig and compared with the reference "
               "namespace model, including how definitions flow into and "
